@@ -143,7 +143,8 @@ SPEC = {
         # stake threshold on the real BitVec
         _single("thr", "notar", 3, Q), _single("thr", "fastfinal", 3, Q), _single("thr", "final", 3, Q),
         _mixed("thr", "nfallback", "a", 3, 3, Q), _mixed("thr", "skip", "a", 3, 3, Q),
-        _single("thr", "notar", 2, T), _single("thr", "fastfinal", 5, T), _single("thr", "final", 64, T),
+        # a bitmask shorter than the validator set in the quick tier (a seeded change, C09-m2, was only caught by the thorough tier)
+        _single("thr", "notar", 2, Q), _single("thr", "fastfinal", 5, T), _single("thr", "final", 64, T),
         _mixed("thr", "nfallback", "a", 2, 5, T), _mixed("thr", "skip", "a", 4, 1, T),
         SEQ,
         # aggregate signature check
